@@ -65,6 +65,19 @@ def make_case(ctx, g):
     d, scopes = b.random_document(n_records=g.rng.randint(1, 8))
     doc = w.conts[d]
     flags = set()
+    if g.chance(0.15):
+        # a typed literal whose datatype is xsd:QName is a typed literal (PROV-JSON's own marker for a qualified name is
+        # prov:QUALIFIED_NAME): text that resolves, text with an unknown prefix, beside the qualified name it spells
+        c = g.choice(scopes)
+        nss = b.scope_namespaces(c)
+        ns = g.choice(nss) if nss else Namespace("ex", "http://example.org/")
+        xq = QualifiedName(Namespace("xsd", "http://www.w3.org/2001/XMLSchema#"), "QName")
+        lex = g.choice(["%s:chart" % ns.prefix, "unknownpfx:chart", "chart"])
+        attrs = [(w.qname(ns.prefix, ns.uri, "lit"), Literal(lex, xq))]
+        if g.chance(0.4):
+            attrs.append((w.qname(ns.prefix, ns.uri, "lit"), w.qname(ns.prefix, ns.uri, "chart")))
+        w.new_record(c, "Entity", w.qname(ns.prefix, ns.uri, "qnlit%d" % g.rng.randint(0, 9)), attrs)
+        flags.add("xsd:QName-literal")
     if len(scopes) > 1:
         flags.add("bundles")
     if any(c.get_default_namespace() is not None for c in [doc] + list(doc.bundles)):
